@@ -113,6 +113,10 @@ fn parse_failure(out: &ChildOutcome) -> Failure {
     }
 }
 
+fn quiet_env() -> Vec<(String, String)> {
+    vec![("RUST_BACKTRACE".into(), "0".into())]
+}
+
 fn u64map(v: Option<&Value>) -> BTreeMap<String, u64> {
     v.and_then(|m| m.as_object())
         .map(|m| m.iter().map(|(k, v)| (k.clone(), v.as_u64().unwrap_or(0))).collect())
@@ -123,7 +127,7 @@ pub fn run_job(prop: &str, job: &Job) -> JobResult {
     let mut a = job.base_args(prop);
     a.extend(["--cap".into(), job.cap_s.to_string()]);
     // hard limit: the graceful cap is tested every 200 executions only
-    let out = mcx::child::run_self(&a, &[], Duration::from_secs(job.cap_s + 20));
+    let out = mcx::child::run_self(&a, &quiet_env(), Duration::from_secs(job.cap_s + 20));
     let mut r = JobResult {
         job: job.clone(),
         completed: false,
@@ -220,6 +224,12 @@ fn normalize(s: &str) -> String {
 /// Stable key of a failure: shape of the model + first line of the message, with the parts that
 /// vary with the schedule (thread lists, addresses) cut off.
 pub fn failure_key(job: &Job, f: &Failure) -> String {
+    // an oracle may name its own key (a finding that shows in many scenarios alike)
+    if let Some(i) = f.message.find("[key: ") {
+        if let Some(j) = f.message[i..].find(']') {
+            return f.message[i + 6..i + j].to_string();
+        }
+    }
     let mut first = f.message.lines().next().unwrap_or("").trim().to_string();
     if let Some(rest) = first.strip_prefix("ORACLE: ") {
         first = rest.to_string();
@@ -255,7 +265,7 @@ fn investigate(prop: &str, job: &Job, f: &Failure) -> Value {
         "--ckpt-at".into(), f.iter.to_string(),
         "--ckpt-file".into(), ck.display().to_string(),
     ]);
-    let again = mcx::child::run_self(&a, &[], Duration::from_secs(job.cap_s + 120));
+    let again = mcx::child::run_self(&a, &quiet_env(), Duration::from_secs(job.cap_s + 120));
     if again.clean() || again.timed_out {
         mcx::machinery_error(&format!(
             "failure of {} did not reproduce on re-run (nondeterminism in the harness): {}",
@@ -294,6 +304,7 @@ fn trace_from_checkpoint(prop: &str, job: &Job, scenario_index: u64, ck: &std::p
         ("LOOM_LOCATION".into(), "1".into()),
         ("LOOM_MAX_BRANCHES".into(), job.max_branches.to_string()),
         ("NO_COLOR".into(), "1".into()),
+        ("RUST_BACKTRACE".into(), "0".into()),
     ];
     if let Some(b) = job.bound {
         env.push(("LOOM_MAX_PREEMPTIONS".into(), b.to_string()));
